@@ -62,6 +62,7 @@ class Contract:
         self.btree_loops = []
         self.chars_iters = []
         self.box_dyn = []
+        self.map_collect = None
         self.let_types = {}
         self.rename_types = {}
         self.loop_iter = {}
@@ -134,6 +135,9 @@ def parse_contracts(path):
             last = None
         elif word == 'chars_iters':
             cur.chars_iters = rest.split()
+            last = None
+        elif word == 'map_collect':
+            cur.map_collect = rest.strip()
             last = None
         elif word == 'box_dyn':
             cur.box_dyn = rest.split()
@@ -587,6 +591,38 @@ def pure_args(a):
     if re.search(r'\.\s*[a-z_][A-Za-z0-9_]*\s*\(', a):
         return False
     return True
+
+
+def rewrite_map_collect(b, boundary, key, rel, base_line, log):
+    """R21: `<ident>.into_iter().map(<closure>).collect()` -> `<boundary>(<ident>, <closure>)`.  The boundary fn (std_specs.rs) carries
+    the ASSUMED std semantics of map + collect (element-wise, in order; for `Result` targets the first error wins), stated through
+    the closure's own postcondition, hence sound for any closure -- same reason as R17 (vstd has no usable model of these adapters)."""
+    pat = re.compile(r'\b([A-Za-z_][A-Za-z0-9_]*)\s*\.\s*into_iter\s*\(\s*\)\s*\.\s*map\s*\(')
+    n = 0
+    while True:
+        m = pat.search(b)
+        if not m:
+            break
+        depth, k = 1, m.end()
+        while k < len(b) and depth:
+            if b[k] in '([{':
+                depth += 1
+            elif b[k] in ')]}':
+                depth -= 1
+            k += 1
+        if depth:
+            raise ExtractError('fn %s: unbalanced map( .. )' % key)
+        closure = b[m.end():k - 1].strip()
+        m2 = re.match(r'\s*\.\s*collect\s*\(\s*\)', b[k:])
+        if not m2:
+            raise ExtractError('fn %s: .into_iter().map(..) not followed by .collect() (R21 does not apply)' % key)
+        b = b[:m.start()] + '%s(%s, %s)' % (boundary, m.group(1), closure) + b[k + m2.end():]
+        log.append({'rule': 'R21', 'where': '%s:%d' % (rel, base_line + b.count('\n', 0, m.start())),
+                    'text': '%s.into_iter().map(f).collect() -> %s(%s, f)' % (m.group(1), boundary, m.group(1))})
+        n += 1
+    if n == 0:
+        raise ExtractError('lost anchor: fn %s: no .into_iter().map(..).collect() chain (R21)' % key)
+    return b
 
 
 def annotate_closures(body, overrides, rel, base_line, log):
@@ -1100,6 +1136,8 @@ class Assembler:
                 b = b[:off] + ph + b[off:]
             b = rewrite_format(b, c.src, base_line, log, helpers, re.sub(r'\W+', '_', key))
             b = apply_rewrites(b, c.src, base_line, log)
+            if c.map_collect:
+                b = rewrite_map_collect(b, c.map_collect, key, c.src, base_line, log)
             b = annotate_closures(b, c.closures, c.src, base_line, log)
             if c.rename_types:
                 b = rename_idents(b, c.rename_types)
@@ -1253,7 +1291,7 @@ class Assembler:
                 ln = self.emit(raw)
                 pl = getattr(self, 'pending_lemma', None)
                 if pl is not None:
-                    mm = re.match(r'\s*(?:pub\s+)?(?:broadcast\s+)?proof\s+fn\s+(\w+)', raw)
+                    mm = re.match(r'\s*(?:pub\s+)?(?:broadcast\s+)?(?:proof\s+)?fn\s+(\w+)', raw)
                     if mm:
                         self.open_lemma = (pl[0], pl[1], mm.group(1), ln)
                         self.pending_lemma = None
